@@ -80,6 +80,9 @@ pub struct Shared {
 	pub close_gate: Mutex<Option<String>>,
 	pub close_calls: Mutex<u32>,
 	pub events: Mutex<Vec<String>>,
+	/// Some(text): the next WebSocket ping the client writes fails with this text
+	pub ping_fail: Mutex<Option<String>>,
+	pub pings: Mutex<u32>,
 }
 
 pub struct MockSender {
@@ -128,6 +131,20 @@ impl TransportSenderT for MockSender {
 					shared.events.lock().push(format!("send failed: {text}"));
 					Err(MockErr(text))
 				}
+			}
+		}
+	}
+
+	fn send_ping(&mut self) -> impl Future<Output = Result<(), Self::Error>> + Send {
+		let shared = self.shared.clone();
+		async move {
+			*shared.pings.lock() += 1;
+			match shared.ping_fail.lock().take() {
+				Some(text) => {
+					shared.events.lock().push(format!("ping failed: {text}"));
+					Err(MockErr(text))
+				}
+				None => Ok(()),
 			}
 		}
 	}
@@ -186,11 +203,14 @@ pub struct ClientCfg {
 	pub id_kind: IdK,
 	pub max_concurrent_requests: usize,
 	pub sub_buffer: usize,
+	/// WebSocket pings every 100 s of the paused clock; the inactivity limit (measured by the client with the real
+	/// clock) is far out of reach
+	pub ping: bool,
 }
 
 impl Default for ClientCfg {
 	fn default() -> Self {
-		ClientCfg { id_kind: IdK::Number, max_concurrent_requests: 256, sub_buffer: 1024 }
+		ClientCfg { id_kind: IdK::Number, max_concurrent_requests: 256, sub_buffer: 1024, ping: false }
 	}
 }
 
@@ -205,11 +225,17 @@ impl MockClient {
 			close_gate: Mutex::new(None),
 			close_calls: Mutex::new(0),
 			events: Mutex::new(vec![]),
+			ping_fail: Mutex::new(None),
+			pings: Mutex::new(0),
 		});
 		let (tx, rx) = mpsc::unbounded_channel();
 		let sender = MockSender { shared: shared.clone() };
 		let receiver = MockReceiver { rx, shared: shared.clone() };
-		let client = ClientBuilder::default()
+		let mut builder = ClientBuilder::default();
+		if cfg.ping {
+			builder = builder.enable_ws_ping(jsonrpsee_core::client::async_client::PingConfig::new().ping_interval(std::time::Duration::from_secs(100)).inactive_limit(std::time::Duration::from_secs(1_000_000_000)).max_failures(1000));
+		}
+		let client = builder
 			.id_format(match cfg.id_kind {
 				IdK::Number => IdKind::Number,
 				IdK::String => IdKind::String,
